@@ -26,7 +26,7 @@ MANIFEST = dict(
          'absolute location) the C, C++ and HTML outputs are identical file by file; for Python the same holds when the '
          'absolute location is equal (full statement refuted by witness: known finding F-PY-PICKLEPATH). Tie: the tables are '
          're-extracted on every run (un-gating a timestamp or dropping a sorted() breaks a proof) and real nnvg runs that '
-         'differ in PYTHONHASHSEED, wall clock, a patched clock, cwd and absolute location are compared by sha256 with the '
+         'differ in PYTHONHASHSEED, wall clock, a patched clock, cwd (absolute arguments, and a directory inside the project with every relative argument re-spelled, incl. two --configuration files), absolute location, and a reused output directory are compared by sha256 with the '
          'model\'s predicted equal/unequal relation, path sets and include lists.',
     note='Trusted: Coq kernel; tools/translators/gen_c07.py (Jinja block scanner, Python ast scans); the render signature (the '
          'template body sees the environment only through the audit view) -- ambient reads inside the vendored Jinja2 or pydsdl '
@@ -160,7 +160,29 @@ def runs_audit_off() -> typing.List[dict]:
         dict(name='Rcwd', hashseed='0', loc='A', cwd='other', paths='abs', wave=1),
         dict(name='Rloc', hashseed='0', loc='B', cwd='loc', paths='rel', wave=1),
         dict(name='Rall', hashseed='random', loc='B', cwd='other', paths='abs', wave=1, fake_offset=FIVE_YEARS),
+        # working directory inside the project: every relative path on the command line is spelled differently
+        dict(name='Rsub', hashseed='0', loc='A', cwd='sub:m', paths='rel', wave=1),
+        # output directory used before by a run with another option set (pre_args filled in by mk_case)
+        dict(name='Rreuse', hashseed='0', loc='A', cwd='loc', paths='rel', wave=1, pre_args=[]),
     ]
+
+
+CONFIG_FILES = {
+    'x/site.yaml': 'nunavut.lang.c:\n  options:\n    target_endianness: big\nnunavut.lang.cpp:\n  options:\n    target_endianness: big\n',
+    'm/board.yaml': 'nunavut.lang.c:\n  options:\n    target_endianness: little\nnunavut.lang.cpp:\n  options:\n    target_endianness: little\n',
+}
+CONFIG_ORDER = ['x/site.yaml', 'm/board.yaml']     # sorted by spelling: from the root m/.. < x/.., from m/: ../x/.. < board.yaml
+CONFIG_VAL = {'x/site.yaml': 2, 'm/board.yaml': 1}
+
+
+def alt_args(lang: str, args: typing.List[str]) -> typing.List[str]:
+    """another option set for the run that used the output directory before"""
+    a = list(LANG[lang]['base'])
+    big = '--target-endianness' in args and args[args.index('--target-endianness') + 1] == 'big'
+    a += ['--target-endianness', 'little' if big else 'big', '--enable-serialization-asserts']
+    if '--omit-serialization-support' not in args and lang in ('c', 'cpp'):
+        a += ['--omit-float-serialization-support']
+    return a
 
 
 def runs_audit_on() -> typing.List[dict]:
@@ -174,12 +196,25 @@ def runs_audit_on() -> typing.List[dict]:
     ]
 
 
-def mk_case(cid: str, lang: str, args: typing.List[str], ns: dict, audit: bool, user_templates: typing.Optional[str] = None) -> dict:
+def _mk_case(cid: str, lang: str, args: typing.List[str], ns: dict, audit: bool, user_templates: typing.Optional[str] = None,
+            configs: bool = False) -> dict:
     dsdl, lookup = case_files(ns)
     a = LANG[lang]['base'] + list(args) + (['--embed-auditing-info'] if audit else [])
     return dict(id=cid, lang=lang, args=a, dsdl=dsdl, lookup=lookup, root=ns['root'],
                 lookup_roots=sorted({t['ns'][0] for t in ns['lookup']}), runs=runs_audit_on() if audit else runs_audit_off(),
-                audit=audit, ns=ns, opt=args, user_templates=user_templates)
+                audit=audit, ns=ns, opt=args, user_templates=user_templates,
+                config_files=dict(CONFIG_FILES) if configs else {}, config_order=list(CONFIG_ORDER) if configs else [])
+
+
+def mk_case(*a, **k) -> dict:
+    return _fill_pre_args(_mk_case(*a, **k))
+
+
+def _fill_pre_args(case: dict) -> dict:
+    for r in case['runs']:
+        if r.get('pre_args') is not None:
+            r['pre_args'] = alt_args(case['lang'], case['args'])
+    return case
 
 
 _D0 = dict(ns=['dep', 'far'], short='D0', major=0, minor=1, kind='struct', fields=[('prim', 'uint8')], resp=[])
@@ -220,7 +255,7 @@ WITNESS_NS = dict(root='ns', lookup=[], types=[
 def run_impl(cases: typing.List[dict], jobs: int = 6) -> typing.Dict[str, dict]:
     base = core.scratch('c07-')
     doc = {'base': base, 'jobs': jobs,
-           'cases': [{k: c[k] for k in ('id', 'lang', 'args', 'dsdl', 'lookup', 'root', 'lookup_roots', 'runs', 'user_templates') if k in c} for c in cases]}
+           'cases': [{k: c[k] for k in ('id', 'lang', 'args', 'dsdl', 'lookup', 'root', 'lookup_roots', 'runs', 'user_templates', 'config_files', 'config_order') if k in c} for c in cases]}
     p = core.run([core.PY, os.path.join(core.VERIF, 'tools', 'harness', 'c07_impl.py')], input=json.dumps(doc),
                  env=core.repo_env(), timeout=3000)
     shutil.rmtree(base, ignore_errors=True)
@@ -277,6 +312,8 @@ def oracle_diffs(case: dict, res: dict) -> typing.List[dict]:
         if ri is None or ri['rc'] != 0:
             out.append(dict(run=r['name'], what='run failed', log=(ri or {}).get('log', '')))
             continue
+        if r.get('pre_args') is not None:
+            ri = dict(ri, files={f: h for f, h in ri['files'].items() if f in r0['files']})   # leftovers of the earlier run: C12's business
         if set(ri['files']) != set(r0['files']):
             out.append(dict(run=r['name'], what='path set differs', only_base=sorted(set(r0['files']) - set(ri['files'])),
                             only_run=sorted(set(ri['files']) - set(r0['files']))))
@@ -330,9 +367,11 @@ def coq_case(i: int, case: dict, res: dict, pickle_live: bool, state_live: bool 
             ckey(t), '; '.join(ckey(d) for d in deps_of(t)), cpath(std), cpath(relpath(t).split('/'))))
     lines = ['Definition I_%d : list tydecl := [\n  %s ].' % (i, ';\n  '.join(decls))]
     lines.append('Definition c_%d : cfg := {| c_lang := %s; c_ext := %s; c_stem := %s; c_gen_ns := %s; c_embed_audit := %s; '
-                 'c_omit_ser := %s; c_prefer_sys := %s; c_support_incs := %s; c_support_files := [%s]; c_user_templates := %s |}.' % (
+                 'c_omit_ser := %s; c_prefer_sys := %s; c_support_incs := %s; c_support_files := [%s]; c_user_templates := %s; '
+                 'c_config_files := [%s] |}.' % (
                      i, L['coq'], cs(L['ext']), cs(L['stem']), cbool(L['gen_ns']), cbool(case['audit']), cbool(omit), cbool(L['sys']),
-                     cpath(sup_inc), '; '.join(cpath(f.split('/')) for f in support_files), cbool(bool(case.get('user_templates')))))
+                     cpath(sup_inc), '; '.join(cpath(f.split('/')) for f in support_files), cbool(bool(case.get('user_templates'))),
+                     '; '.join('{| cf_path := %s; cf_val := Some %d |}' % (cpath(c.split('/')), CONFIG_VAL[c]) for c in case.get('config_order', []))))
     tbl = 'gen_sites' if (pickle_live or case['lang'] != 'py') else '(drop_pickle gen_sites)'
 
     def env_of(j: int, r: dict) -> str:
@@ -344,7 +383,7 @@ def coq_case(i: int, case: dict, res: dict, pickle_live: bool, state_live: bool 
             clock = 1000 + j
         which = {'0': 0, '1': 1}.get(r['hashseed'], 2)
         abs_ = ['', 'scratch', r['loc'], 'in']
-        cwd = abs_[:-1] if r['cwd'] == 'loc' else ['', 'scratch', 'other']
+        cwd = abs_[:-1] if r['cwd'] == 'loc' else (abs_[:-1] + [r['cwd'][4:]] if r['cwd'].startswith('sub:') else ['', 'scratch', 'other'])
         return '(mk_env %d %s %s %d)' % (clock, cpath(cwd), cpath(abs_), which)
     checks, labels = [], []
     e0 = env_of(0, case['runs'][0])
@@ -408,19 +447,19 @@ def shrink(case: dict, bad_run: str, still_fails) -> dict:
             budget -= 1
             if budget <= 0:
                 break
-            c2 = mk_case(case['id'] + '-s', case['lang'], case['opt'], cand, case['audit'], case.get('user_templates'))
+            c2 = mk_case(case['id'] + '-s', case['lang'], case['opt'], cand, case['audit'], case.get('user_templates'), bool(case.get('config_order')))
             c2['runs'] = [r for r in c2['runs'] if r['name'] in ('R0', bad_run)]
             if still_fails(c2):
                 cur = cand
                 changed = True
                 break
-    out = mk_case(case['id'] + '-min', case['lang'], case['opt'], cur, case['audit'], case.get('user_templates'))
+    out = mk_case(case['id'] + '-min', case['lang'], case['opt'], cur, case['audit'], case.get('user_templates'), bool(case.get('config_order')))
     out['runs'] = [r for r in out['runs'] if r['name'] in ('R0', bad_run)]
     return out
 
 
 def strip(case: dict) -> dict:
-    return {k: case[k] for k in ('id', 'lang', 'args', 'dsdl', 'lookup', 'root', 'lookup_roots', 'runs', 'audit', 'opt', 'ns', 'user_templates') if k in case}
+    return {k: case[k] for k in ('id', 'lang', 'args', 'dsdl', 'lookup', 'root', 'lookup_roots', 'runs', 'audit', 'opt', 'ns', 'user_templates', 'config_files', 'config_order') if k in case}
 
 
 # ---- main ----------------------------------------------------------------------------------------------------------------------
@@ -449,14 +488,19 @@ def build_cases(chk: core.Check) -> typing.List[dict]:
     # corpus: user template directories (copies of the built-in ones) that move with the inputs
     for lang, mode in (('cpp', 'both'), ('c', 'tpl'), ('py', 'tpl')) if chk.tier == 'quick' else (('cpp', 'both'), ('cpp', 'tpl'), ('c', 'both'), ('py', 'both'), ('html', 'tpl')):
         cases.append(mk_case('t-%s-%s' % (lang, mode), lang, [], WITNESS_STATE_NS if lang != 'py' else WITNESS_NS, False, user_templates=mode))
-        cases[-1]['runs'] = [r for r in cases[-1]['runs'] if r['name'] in ('R0', 'Rh1', 'Rcwd', 'Rloc', 'Rall')]
+        cases[-1]['runs'] = [r for r in cases[-1]['runs'] if r['name'] in ('R0', 'Rh1', 'Rcwd', 'Rloc', 'Rall', 'Rsub', 'Rreuse')]
+    # corpus: two --configuration files that set the same option differently, given by relative paths (cwd pairing Rsub)
+    for lang in ('c', 'cpp'):
+        cases.append(mk_case('k-%s' % lang, lang, [], WITNESS_STATE_NS, False, configs=True))
+        cases[-1]['runs'] = [r for r in cases[-1]['runs'] if r['name'] in ('R0', 'Rsub', 'Rcwd', 'Rloc', 'Rreuse')]
     for k in range(n_ns):
         ns = gen_namespace(rng, rng.choice([2, 3, 4, 6, 8]))
         for lang in ('c', 'cpp', 'py', 'html'):
             opts = OPTION_SETS[lang]
             args = opts[(k + rng.randrange(len(opts))) % len(opts)] if chk.tier == 'quick' else rng.choice(opts)
             ut = rng.choice(['tpl', 'both']) if rng.random() < 0.2 else None
-            cases.append(mk_case('n%d-%s' % (k, lang), lang, args, ns, False, user_templates=ut))
+            cases.append(mk_case('n%d-%s' % (k, lang), lang, args, ns, False, user_templates=ut,
+                                 configs=lang in ('c', 'cpp') and rng.random() < 0.25))
     n_audit = 1 if chk.tier == 'quick' else 4
     for k in range(n_audit):
         ns = gen_namespace(rng, rng.choice([3, 5]))
@@ -531,7 +575,7 @@ def main(chk: core.Check, replay: typing.Optional[str] = None) -> int:
 
     stats = {'cases': len(cases), 'runs': 0, 'files_hashed': 0, 'pairs_compared': 0, 'file_pairs_compared': 0,
              'known_finding_instances': 0, 'audit_on_cases': 0, 'audit_on_file_pairs_differing': 0, 'audit_on_file_pairs_equal': 0,
-             'model_checks': 0, 'by_lang': {}, 'with_lookup_deps': 0, 'with_nested_ns': 0, 'with_service': 0, 'with_union': 0, 'with_user_templates': 0, 'with_natsort_ties': 0,
+             'model_checks': 0, 'by_lang': {}, 'with_lookup_deps': 0, 'with_nested_ns': 0, 'with_service': 0, 'with_union': 0, 'with_user_templates': 0, 'with_two_config_files': 0, 'reused_output_dir_pairs': 0, 'with_natsort_ties': 0,
              'types_total': 0, 'invalid_inputs': 0, 'known_state_instances': 0, 'pairs_with_different_write_order': 0}
     violations: typing.List[typing.Tuple[dict, dict]] = []
     distinct = set()
@@ -542,6 +586,8 @@ def main(chk: core.Check, replay: typing.Optional[str] = None) -> int:
         ns = c.get('ns', {})
         stats['with_lookup_deps'] += bool(ns.get('lookup'))
         stats['with_user_templates'] += bool(c.get('user_templates'))
+        stats['with_two_config_files'] += bool(c.get('config_order'))
+        stats['reused_output_dir_pairs'] += sum(1 for x in c['runs'] if x.get('pre_args') is not None)
         _subs = {tuple(t['ns']) for t in ns.get('types', [])}
         stats['with_natsort_ties'] += len({(n[:-1], re.sub(r'0+(?=\d)', '', n[-1].lower())) for n in _subs if n}) < len(_subs)
         stats['with_nested_ns'] += any(len(t['ns']) > 1 for t in ns.get('types', []))
@@ -603,7 +649,8 @@ def main(chk: core.Check, replay: typing.Optional[str] = None) -> int:
         'rule': 'seeded random DSDL namespaces (2-8 types; structs, unions, services, delimited; nested namespaces up to depth 3; '
                 'composite fields, arrays of composites, cross-namespace dependencies through --lookup-dir) x 4 target languages x '
                 'option sets; each generated by real nnvg 8 times (base, PYTHONHASHSEED 1/2/random, clock +5 years via '
-                'sitecustomize, other cwd with absolute paths, other absolute location, all at once; every non-base run >= 1.2 s '
+                'sitecustomize, other cwd with absolute paths, cwd inside the project with re-spelled relative paths, other absolute location, '
+                'all at once, output directory used before with another option set; every non-base run >= 1.2 s '
                 'later), sha256 per file; plus --embed-auditing-info cases with frozen/shifted clock. non-trivial = distinct '
                 '(language, options, namespace) with more than one type and at least one composite dependency whose runs all succeeded',
         'samples': [dict(id=c['id'], lang=c['lang'], args=c['args'], files=sorted(c['dsdl']), lookup=sorted(c['lookup'])) for c in cases[2:10]],
